@@ -914,7 +914,7 @@ class DataType(object):
         if split_data_type[1] == 'point':
             try:
                 return {'%.6f,%.6f' % tuple(float(coord) for coord in value.split(',')) for value in values}
-            except (ValueError, TypeError):
+            except (ValueError, TypeError, AttributeError):
                 raise EDXMLEventValidationError(
                     'Invalid geo:point value in list: "%s"' % '","'.join([repr(value) for value in values])
                 )
